@@ -1,7 +1,7 @@
 """E rules: eviction policy, who may delete rows, budgets, accounting."""
 import ast
 
-from .framework import rule, Ob, fmt_trace, sql_events, call_events, values_in
+from .framework import rule, Ob, fmt_trace, sql_events, call_events, values_in, role_of, within
 from .model import AnalysisError, walk_shallow, dotted
 from .values import V
 from .interp import Interp
@@ -79,6 +79,13 @@ E2_ROLES = {
 }
 
 
+def _same_helper(a, b):
+    """Both events belong to the activation of the same role function (the lazy cull helper, cull(), ...)."""
+    ra = [q for q in ((a.fn.qual,) + tuple(reversed(a.stack))) if q in E2_ROLES]
+    rb = [q for q in ((b.fn.qual,) + tuple(reversed(b.stack))) if q in E2_ROLES]
+    return bool(ra) and bool(rb) and ra[0] == rb[0]
+
+
 def _volume_reads(ev):
     """Trace indices of the statements the compared volume value was read by."""
     v = ev.d['val']
@@ -132,7 +139,7 @@ def e2(ctx):
             tr = p.trace
             for ev in sql_events(tr, 'delete', 'Cache'):
                 st = ev.d['stmt']
-                role = E2_ROLES.get(ev.fn.qual)
+                role = role_of(ev, E2_ROLES)
                 params = ev.d.get('params')
                 plist = [] if params is None or isinstance(params, V) else list(params)
                 # sub-role inside the lazy cull helper: expiry statement or policy statement
@@ -191,7 +198,7 @@ def e2(ctx):
                         allowed = vt[-1]
                         reads = _volume_reads(vts[-1][0])
                         writes = [e.seq for e in before if e.kind == 'SQL' and _is_row_write(e)
-                                  and (e.d['stmt'].table or '').lower() == 'cache' and e.fn is ev.fn]
+                                  and (e.d['stmt'].table or '').lower() == 'cache' and _same_helper(e, ev)]
                         if reads and writes and min(reads) < max(writes):
                             ok, why = False, 'the volume compared with size_limit was measured BEFORE rows were ' \
                                              'removed in this call (stale): eviction can run although the cache is ' \
@@ -298,12 +305,12 @@ def e3(ctx):
     for p in ctx.paths(caller, 'default'):
         if p.kind == 'cut':
             continue
-        dels = [e for e in sql_events(p.trace, 'delete', 'Cache') if e.fn is h]
+        dels = [e for e in sql_events(p.trace, 'delete', 'Cache') if within(e, h.qual)]
         if not dels:
             continue
         n += 1
         first = dels[0]
-        zero_tests = [e for e in p.trace[:first.seq] if e.fn is h and e.kind == 'TEST' and e.d['val'].k == 'cmp'
+        zero_tests = [e for e in p.trace[:first.seq] if within(e, h.qual) and e.kind == 'TEST' and e.d['val'].k == 'cmp'
                       and e.d['val'].a[0] == ('Eq',) and any(x.is_const and x.val == 0 for x in e.d['val'].a[1])
                       and not e.d['truth']]
         if not zero_tests:
@@ -328,7 +335,7 @@ def e3(ctx):
             # rows removed by the first statement: rows of its sibling select
             sel1 = None
             for e in reversed(p.trace[:dels[0].seq]):
-                if e.kind == 'SQL' and e.d['stmt'] is not None and e.d['stmt'].kind == 'select' and e.fn is h:
+                if e.kind == 'SQL' and e.d['stmt'] is not None and e.d['stmt'].kind == 'select' and within(e, h.qual):
                     sel1 = e
                     break
             want = V('term', 'Sub', (l1, V('term', 'len', (V('rows', sel1.seq),)))) if sel1 is not None else None
